@@ -477,6 +477,8 @@ class FullEngine(Engine):
         # super().m(...)
         if isinstance(f.value, ast.Call) and isinstance(f.value.func, ast.Name) and f.value.func.id == 'super':
             return self.call_super(c, f.attr, st)
+        if isinstance(f.value, ast.Name) and f.value.id not in st.env and (f.value.id + '.' + f.attr) in self.specs:
+            return self.call_contract(self.specs[f.value.id + '.' + f.attr], c, None, st)          # e.g. float.is_integer(v)
         recv = self.expr(f.value, st)
         if isinstance(recv, PRef): self.need_not_none(st, recv, ast.unparse(f.value))
         m = f.attr
